@@ -1,7 +1,25 @@
 //! rvcheck <Cxx> <quick|thorough> | rvcheck <Cxx> --replay <file>
 use rv::core::*;
 
+struct StderrLogger;
+impl log::Log for StderrLogger {
+    fn enabled(&self, m: &log::Metadata) -> bool {
+        m.level() <= log::Level::Debug && !m.target().starts_with("rustls") && !m.target().starts_with("hyper") && !m.target().starts_with("reqwest")
+    }
+    fn log(&self, r: &log::Record) {
+        if self.enabled(r.metadata()) {
+            eprintln!("[{}] {}", r.level(), r.args());
+        }
+    }
+    fn flush(&self) {}
+}
+static LOGGER: StderrLogger = StderrLogger;
+
 fn main() {
+    if std::env::var_os("RV_LOG").is_some() {
+        let _ = log::set_logger(&LOGGER);
+        log::set_max_level(log::LevelFilter::Debug);
+    }
     let args: Vec<String> = std::env::args().collect();
     if args.len() < 3 {
         eprintln!("usage: rvcheck <id> <quick|thorough> | rvcheck <id> --replay <file> | rvcheck --list");
